@@ -1,6 +1,126 @@
-(* C06: theorem statements are added when the corresponding Proofs file is merged. *)
-From Coq Require Import List ZArith QArith.
-From Eudoxia Require Import Model.Simulator.
-Example C06_placeholder : percentile99 nil = None.
-Proof. reflexivity. Qed.
-Print Assumptions C06_placeholder.
+(* C06 Completion, latency and returned statistics match an independent recount.
+   Statements only; every proof is [exact <lemma of Proofs/StatsFacts.v>]. [sim_run] is the loop of
+   run_simulator (Model/Simulator.v); the recount functions [rc_*] (Proofs/StatsFacts.v) read only the
+   event log (per tick: arrivals, decisions, results, pipelines recorded as finished). *)
+From Coq Require Import List ZArith QArith Permutation.
+Import ListNotations.
+From Eudoxia Require Import Model.Types Model.Lifecycle Model.Container Model.Pool Model.Executor Model.Sched
+  Model.Simulator Proofs.ContainerRunFacts Proofs.ExecLifeFacts Proofs.StatsFacts.
+Close Scope Q_scope.
+Close Scope Z_scope.
+
+(* the statistics a run returns equal the recount of that run: every counter, throughput, and per class the
+   arrivals, completions and the latency lists over which mean and p99 are taken *)
+Theorem C06_stats_refine : forall C a np cpu ram arrivals s logs,
+  sim_run C a 0%Z (init_sim C np cpu ram) arrivals = (s, logs, None) ->
+  forall dur : Q,
+  let st := final_stats C dur s in
+  let tps := cf_tps C in
+  length logs = length arrivals /\
+  st_created st = rc_arrivals C logs None /\
+  st_completed st = rc_completed_containers logs /\
+  st_throughput st = (inject_Z (rc_completed_containers logs) / dur)%Q /\
+  st_assignments st = rc_assignments logs /\
+  st_suspensions st = rc_suspensions logs /\
+  st_failures st = rc_failures logs /\
+  st_all st = pipeline_stats tps (rc_arrivals C logs None)
+                (rc_latencies C logs (Some Query) ++ rc_latencies C logs (Some Interactive)
+                 ++ rc_latencies C logs (Some Batch)) /\
+  st_query st = pipeline_stats tps (rc_arrivals C logs (Some Query)) (rc_latencies C logs (Some Query)) /\
+  st_interactive st = pipeline_stats tps (rc_arrivals C logs (Some Interactive))
+                        (rc_latencies C logs (Some Interactive)) /\
+  st_batch st = pipeline_stats tps (rc_arrivals C logs (Some Batch)) (rc_latencies C logs (Some Batch)).
+Proof. exact stats_refine. Qed.
+Print Assumptions C06_stats_refine.
+
+Theorem C06_stats_all_recount : forall C a np cpu ram arrivals s logs dur,
+  sim_run C a 0%Z (init_sim C np cpu ram) arrivals = (s, logs, None) ->
+  st_all (final_stats C dur s)
+    = pipeline_stats (cf_tps C) (rc_arrivals C logs None) (rc_latencies C logs None).
+Proof. exact stats_all_recount. Qed.
+Print Assumptions C06_stats_all_recount.
+
+(* arrivals and completions per priority partition the totals *)
+Theorem C06_class_partition : forall C dur s,
+  let st := final_stats C dur s in
+  pst_arrivals (st_all st)
+    = (pst_arrivals (st_query st) + pst_arrivals (st_interactive st) + pst_arrivals (st_batch st))%Z /\
+  pst_completions (st_all st)
+    = (pst_completions (st_query st) + pst_completions (st_interactive st)
+       + pst_completions (st_batch st))%Z /\
+  Permutation (lat_of s Query ++ lat_of s Interactive ++ lat_of s Batch) (map snd (sm_lat s)).
+Proof. exact class_partition. Qed.
+Print Assumptions C06_class_partition.
+
+(* a pipeline is counted as completed at most once, at or after its arrival *)
+Theorem C06_completed_once : forall C a np cpu ram arrivals s logs,
+  sim_run C a 0%Z (init_sim C np cpu ram) arrivals = (s, logs, None) ->
+  NoDup (concat (map tl_finished logs)) /\
+  NoDup (rc_arrived logs) /\
+  (forall p tf, In (p, tf) (rc_finished logs) ->
+     In p (rc_arrived logs) /\ (0 <= rc_arrival_tick logs p <= tf)%Z).
+Proof. exact completed_once. Qed.
+Print Assumptions C06_completed_once.
+
+(* ... only when it is successful, and then it leaves the outstanding set; nothing successful stays
+   outstanding in a tick with results *)
+Theorem C06_finished_is_successful : forall C a arrivals t s,
+  Forall (fun sl =>
+            (forall p, In p (tl_finished (snd sl)) ->
+               is_successful (cf_static C) (e_world (sm_exec (fst sl))) p = true /\
+               tl_results (snd sl) <> [] /\ ~ In p (sm_outstanding (fst sl))) /\
+            (forall p, In p (sm_outstanding (fst sl)) -> tl_results (snd sl) <> [] ->
+               is_successful (cf_static C) (e_world (sm_exec (fst sl))) p = false))
+         (sim_trace C a t s arrivals).
+Proof. exact finished_is_successful. Qed.
+Print Assumptions C06_finished_is_successful.
+
+(* never while any operator is unfinished (given that state_counts is the histogram of operator states) *)
+Theorem C06_never_while_unfinished : forall S w k,
+  counts_ok S w k ->
+  (is_successful S w k = true <-> forall o, In o (pd_order (pipe_of S k)) -> st_of w o = Completed).
+Proof. exact never_while_unfinished. Qed.
+Print Assumptions C06_never_while_unfinished.
+
+(* in the tick in which its last operator completes: if every live container holds operators of a single
+   pipeline (true of all shipped schedulers), a pipeline that becomes successful in a tick is recorded by
+   the sweep of that very tick (the `if executor_results:` guard never delays it). For containers that mix
+   pipelines (custom schedulers only) this is refuted: StatsFacts.Examples.late_finish_refuted. *)
+Theorem C06_finish_tick_has_result : forall C a t s newp s1 lg p ss' w',
+  sim_tick C a t s newp = Ok (s1, lg) ->
+  sched_step C a (sm_sched s) (sm_exec s) (sm_results s) newp = Ok (ss', w', tl_susp lg, tl_asgs lg) ->
+  counts_ok (cf_static C) w' p -> counts_ok (cf_static C) (e_world (sm_exec s1)) p ->
+  (forall q c, In q (e_pools (sm_exec s1)) -> In c (p_active q) -> mono_container (cf_static C) c) ->
+  allbusy (e_world (sm_exec s1)) (sown (sm_exec s1)) ->
+  is_successful (cf_static C) w' p = false ->
+  is_successful (cf_static C) (e_world (sm_exec s1)) p = true ->
+  In p (sm_outstanding s) \/ In p newp ->
+  tl_results lg <> [] /\ In p (tl_finished lg).
+Proof. exact finish_tick_has_result. Qed.
+Print Assumptions C06_finish_tick_has_result.
+
+(* an uncontended pipeline with enough memory finishes in exactly the ticks its operators need: a pool whose
+   only container is fresh reports the success result in exactly the total-th tick and nothing before *)
+Theorem C06_uncontended_latency : forall C id ops cpu ram pr w0 p0 next,
+  (forall x, (cf_rnd C x == x)%Q) ->
+  p_active p0 = [new_container id ops cpu ram pr] ->
+  p_suspending p0 = [] ->
+  (forall o, In o ops -> st_of w0 o = Assigned) ->
+  NoDup ops ->
+  (forall o, In o ops -> o < length (w_st w0)) ->
+  (forall k, k < length ops -> forall p, In p (op_parents (cf_static C) (nth k ops 0)) ->
+     st_of w0 p = Completed \/ exists i, i < k /\ nth i ops 0 = p) ->
+  (forall k, k < length ops -> scr C ops cpu k <> []) ->
+  all_fit C ops cpu ram ->
+  0 < length ops ->
+  (0 <= ram)%Q ->
+  (p_consumed p0 + ram <= p_max_ram p0)%Q ->
+  exists w p r,
+    pool_quiet_run C (total C ops cpu) w0 next p0
+      = Ok (w, next, p, repeat [] (total C ops cpu - 1) ++ [[r]]) /\
+    r_err r = false /\ r_cid r = id /\ r_ops r = ops /\ r_cpu r = cpu /\ r_ram r = ram /\
+    r_prio r = pr /\ r_pool r = p_id p0 /\
+    p_active p = [] /\ p_suspending p = [] /\
+    (forall i, i < length ops -> st_of w (nth i ops 0) = Completed).
+Proof. exact uncontended_latency. Qed.
+Print Assumptions C06_uncontended_latency.
